@@ -141,6 +141,27 @@ Proof. destruct d; simpl; intros H; try discriminate; reflexivity. Qed.
 Lemma label_no_nl l : label_ok l = true -> no_nl l = true.
 Proof. intros H. unfold no_nl. apply (forallb_impl is_digit _ l digit_not_nl), label_digits, H. Qed.
 
+Lemma num_ok_uint maxv l X : num_ok maxv l = true -> head_sat (fun b => negb (is_digit b)) X ->
+  exists v, uint maxv (l ++ X) = POk v X.
+Proof.
+  unfold num_ok. destruct (uint maxv l) as [v r| | | |] eqn:E; try discriminate.
+  destruct r; [|discriminate]. intros _ HX. exists v. unfold uint in *.
+  apply uint_loop_app; assumption.
+Qed.
+
+Lemma num_head_digit maxv l : num_ok maxv l = true -> exists d t, l = d :: t /\ is_digit d = true.
+Proof.
+  unfold num_ok, uint. destruct l as [|d t]; [simpl; discriminate|].
+  simpl. destruct (is_digit d) eqn:E; [intros _; exists d, t; auto|discriminate].
+Qed.
+
+Lemma num_no_nl maxv l : num_ok maxv l = true -> no_nl l = true.
+Proof.
+  unfold num_ok, uint. destruct (uint_loop _ l 0%N true) as [v r| | | |] eqn:E; try discriminate.
+  destruct r; [|discriminate]. intros _. unfold no_nl.
+  apply (forallb_impl is_digit _ l digit_not_nl). exact (uint_loop_digits _ _ _ _ _ E).
+Qed.
+
 Lemma label_head_digit l : label_ok l = true -> exists d t, l = d :: t /\ is_digit d = true.
 Proof.
   unfold label_ok, u32, uint. destruct l as [|d t]; [simpl; discriminate|].
@@ -178,6 +199,12 @@ Lemma sep_ok_parts sep : sep_ok sep = true ->
 Proof.
   unfold sep_ok. destruct sep as [|h X]; [discriminate|]. intros H. split; [discriminate|]. split; [exact H|].
   exists h, X. split; [reflexivity|]. simpl in H. apply andb_true_iff in H. apply blank_is_sep. tauto.
+Qed.
+
+Lemma span_snd_forallb (g f : byte -> bool) l : forallb g l = true -> forallb g (snd (span f l)) = true.
+Proof.
+  induction l as [|b t IH]; [reflexivity|]. simpl. intros H. apply andb_true_iff in H. destruct H as [H1 H2].
+  destruct (f b); [|simpl; rewrite H1; exact H2]. specialize (IH H2). destruct (span f t). exact IH.
 Qed.
 
 Lemma span_no_nl f l : no_nl l = true -> no_nl (snd (span f l)) = true.
@@ -596,14 +623,126 @@ Section RT2.
         change (length rest < fuel). clearbody rest. clear -L. cbn [length] in L. rewrite ?app_length in L. cbn [length] in L. rewrite ?app_length in L. lia.
   Qed.
 
+  (* ---- comment runs and date lines ---- *)
+
+  Definition cc_text (ts : list str) : str := flat_map (fun x => ["C"; "C"] ++ x ++ eol) ts.
+  Definition stopcc (l : str) : Prop := starts_with (tg "C" "C") l = false.
+  Definition cc_parser : parser str := preceded (tag (tg "C" "C")) parse_line.
+
+  Lemma cc_text_cons x ts tl : cc_text (x :: ts) ++ tl = "C" :: "C" :: x ++ eol ++ cc_text ts ++ tl.
+  Proof. unfold cc_text. cbn [flat_map app]. rewrite <- !app_assoc. reflexivity. Qed.
+
+  Lemma cc_line x tl : no_nl x = true -> cc_parser ("C" :: "C" :: x ++ eol ++ tl) = POk (x ++ eol) tl.
+  Proof. intros H. unfold cc_parser. rewrite tagged_line. unfold eol. apply parse_line_eol. exact H. Qed.
+
+  Lemma many_loop_cc : forall ts fuel acc tl,
+    forallb (fun x => no_nl x && utf8_valid x) ts = true -> stopcc tl ->
+    length (cc_text ts ++ tl) < fuel ->
+    exists v, many_loop cc_parser fuel (cc_text ts ++ tl) acc = POk v tl.
+  Proof.
+    induction ts as [|x ts IH]; intros fuel acc tl Hok Hst L.
+    - destruct fuel; [lia|]. cbn [cc_text flat_map app many_loop].
+      unfold cc_parser at 1, preceded, tag. unfold stopcc in Hst. rewrite Hst. cbn [pbind]. eauto.
+    - cbn [forallb] in Hok. apply andb_true_iff in Hok. destruct Hok as [Hx Hok].
+      apply andb_true_iff in Hx. destruct Hx as [Hx _].
+      destruct fuel; [lia|]. rewrite cc_text_cons in *. cbn [many_loop]. rewrite (cc_line x _ Hx).
+      assert (N : Nat.eqb (length (cc_text ts ++ tl)) (length ("C" :: "C" :: x ++ eol ++ cc_text ts ++ tl)) = false).
+      { apply Nat.eqb_neq. cbn [length]. rewrite !app_length. lia. }
+      rewrite N. apply IH; [exact Hok|exact Hst|]. cbn [length] in L. rewrite !app_length in L. rewrite app_length. lia.
+  Qed.
+
+  Lemma loop_cc f t ts tl r :
+    forallb (fun x => no_nl x && utf8_valid x) (t :: ts) = true -> stopcc tl ->
+    loop (S f) (print_item eol (ICC t ts) ++ tl) r = loop f tl r.
+  Proof.
+    intros Hok Hst. cbn [print_item]. fold (cc_text (t :: ts)). rewrite cc_text_cons.
+    cbn [record_loop]. rewrite (parse_tag_known "C" "C" TCC _ eq_refl). cbn [pbind fst snd].
+    cbn [forallb] in Hok. apply andb_true_iff in Hok. destruct Hok as [Ht Hok].
+    apply andb_true_iff in Ht. destruct Ht as [Ht _].
+    fold cc_parser. unfold many1. rewrite (cc_line t _ Ht).
+    destruct (many_loop_cc ts (S (length (cc_text ts ++ tl))) [t ++ eol] tl Hok Hst (Nat.lt_succ_diag_r _)) as [v Hv].
+    match goal with |- pbind ?X _ = _ => replace X with (@POk (list str) v tl) by (symmetry; exact Hv) end.
+    reflexivity.
+  Qed.
+
+  Lemma loop_dt f d m y (created : bool) author tl r :
+    num_ok 255 d = true -> num_ok 255 m = true -> num_ok 65535 y = true ->
+    no_nl author = true -> no_dot author = true ->
+    loop (S f) (print_item eol (IDT d m y created author) ++ tl) r = loop f tl r.
+  Proof.
+    intros Hd Hm Hy Hn Hdot. cbn [print_item].
+    set (kind := if created then ["c"; "r"; "e"; "a"; "t"; "e"; "d"] else ["u"; "p"; "d"; "a"; "t"; "e"; "d"]).
+    assert (E : (["D"; "T"; " "; " "] ++ d ++ ["."] ++ m ++ ["."] ++ y ++ [" "; "("] ++ kind ++
+                 [")"; ";"; " "] ++ author ++ ["."] ++ eol) ++ tl
+              = "D" :: "T" :: " " :: " " :: d ++ "." :: m ++ "." :: y ++ " " :: "(" :: kind ++
+                ")" :: ";" :: " " :: author ++ "." :: eol ++ tl).
+    { rewrite <- !app_assoc. reflexivity. }
+    rewrite E. clear E.
+    cbn [record_loop]. rewrite (parse_tag_known "D" "T" TDT _ eq_refl). cbn [pbind fst snd].
+    unfold parse_date.
+    (* DT and blanks *)
+    destruct (num_head_digit _ d Hd) as (d0 & d' & Ed & Hd0). destruct (digit_facts d0 Hd0) as (_ & _ & _ & Hb0 & _).
+    set (R1 := "." :: m ++ "." :: y ++ " " :: "(" :: kind ++ ")" :: ";" :: " " :: author ++ "." :: eol ++ tl).
+    assert (P1 : terminated (tag (tg "D" "T")) space0 ("D" :: "T" :: " " :: " " :: d ++ R1) = POk (tg "D" "T") (d ++ R1)).
+    { unfold terminated.
+      change (tag (tg "D" "T") ("D" :: "T" :: " " :: " " :: d ++ R1)) with (POk (tg "D" "T") (" " :: " " :: d ++ R1)).
+      cbn [pbind].
+      assert (S1 : space0 (" " :: " " :: d ++ R1) = POk [" "; " "] (d ++ R1)).
+      { apply (space0_block [" "; " "] (d ++ R1) eq_refl). rewrite Ed. simpl. rewrite Hb0. reflexivity. }
+      rewrite S1. reflexivity. }
+    rewrite P1. cbn [pbind].
+    (* day *)
+    destruct (num_ok_uint _ d R1 Hd eq_refl) as [vd Hvd].
+    unfold terminated at 1. unfold u8 at 1. rewrite Hvd. cbn [pbind]. subst R1. cbn [char_].
+    change (beq "." ".") with true. cbn iota. cbn [pbind].
+    (* month *)
+    set (R2 := "." :: y ++ " " :: "(" :: kind ++ ")" :: ";" :: " " :: author ++ "." :: eol ++ tl).
+    destruct (num_ok_uint _ m R2 Hm eq_refl) as [vm Hvm].
+    unfold terminated at 1. unfold u8 at 1. rewrite Hvm. cbn [pbind]. subst R2. cbn [char_].
+    change (beq "." ".") with true. cbn iota. cbn [pbind].
+    (* year *)
+    set (R3 := " " :: "(" :: kind ++ ")" :: ";" :: " " :: author ++ "." :: eol ++ tl).
+    destruct (num_ok_uint _ y R3 Hy eq_refl) as [vy Hvy].
+    unfold u16. rewrite Hvy. cbn [pbind]. subst R3.
+    assert (S2 : space0 (" " :: "(" :: kind ++ ")" :: ";" :: " " :: author ++ "." :: eol ++ tl)
+                 = POk [" "] ("(" :: kind ++ ")" :: ";" :: " " :: author ++ "." :: eol ++ tl))
+      by (apply (space0_block [" "] ("(" :: kind ++ ")" :: ";" :: " " :: author ++ "." :: eol ++ tl) eq_refl eq_refl)).
+    rewrite S2. cbn [pbind].
+    (* (created) / (updated) *)
+    assert (P2 : delimited (char_ "(") parse_datekind (char_ ")")
+                   ("(" :: kind ++ ")" :: ";" :: " " :: author ++ "." :: eol ++ tl)
+                 = POk kind (";" :: " " :: author ++ "." :: eol ++ tl)).
+    { subst kind. destruct created; reflexivity. }
+    rewrite P2. cbn [pbind].
+    (* ; author. *)
+    assert (P3 : exists v, delimited (char_ ";") (preceded space0 (take_till ".")) (char_ ".")
+                   (";" :: " " :: author ++ "." :: eol ++ tl) = POk v (eol ++ tl)).
+    { unfold delimited, preceded. cbn [char_]. change (beq ";" ";") with true. cbn iota. cbn [pbind].
+      unfold space0.
+      change (" " :: author ++ "." :: eol ++ tl) with ((" " :: author) ++ "." :: eol ++ tl).
+      rewrite (span_app_stop is_blank (" " :: author) ("." :: eol ++ tl) eq_refl).
+      destruct (span is_blank (" " :: author)) as [b sfx] eqn:Es. cbn [fst snd pbind].
+      assert (Hs : no_dot sfx = true).
+      { pose proof (span_snd_forallb (fun b => negb (beq "." b)) is_blank (" " :: author)) as K.
+        rewrite Es in K. apply K. cbn [forallb]. exact Hdot. }
+      rewrite (take_till_dot sfx (eol ++ tl) Hs). cbn [pbind char_]. change (beq "." ".") with true. cbn iota.
+      cbn [pbind]. eauto. }
+    destruct P3 as [v P3]. rewrite P3. cbn [pbind].
+    pose proof (parse_line_eol crlf [] tl eq_refl) as PL. cbn [app] in PL. fold eol in PL. rewrite PL.
+    reflexivity.
+  Qed.
+
   (* every printed line starts with a byte that is not a digit: the row loop of a matrix
      stops there *)
   Lemma item_head eol' it tl : exists h X, print_item eol' it ++ tl = h :: X /\ is_digit h = false.
   Proof.
-    destruct it as [num xref lines|k v|k v| |po sep syms rows]; cbn [print_item app xx_line].
+    destruct it as [num xref lines|k v|k v| |t ts|d m y c au|po sep syms rows];
+      cbn [print_item app xx_line flat_map].
     - eexists _, _; split; reflexivity.
     - destruct k; eexists _, _; split; reflexivity.
     - destruct k; eexists _, _; split; reflexivity.
+    - eexists _, _; split; reflexivity.
+    - eexists _, _; split; reflexivity.
     - eexists _, _; split; reflexivity.
     - eexists _, _; split; reflexivity.
   Qed.
@@ -619,8 +758,23 @@ Section RT2.
      of a reference block stops there *)
   Lemma item_stop2 eol' it tl : stop2 (print_item eol' it ++ tl).
   Proof.
-    destruct it as [num xref lines|k v|k v| |po sep syms rows]; cbn [print_item app xx_line];
+    destruct it as [num xref lines|k v|k v| |t ts|d m y c au|po sep syms rows];
+      cbn [print_item app xx_line flat_map];
       try (destruct k); try (destruct po); repeat split.
+  Qed.
+
+  Lemma item_stopcc eol' it tl : is_cc it = false -> stopcc (print_item eol' it ++ tl).
+  Proof.
+    destruct it as [num xref lines|k v|k v| |t ts|d m y c au|po sep syms rows]; intros H; try discriminate;
+      cbn [print_item app xx_line]; try (destruct k); try (destruct po); reflexivity.
+  Qed.
+
+  Lemma body_stopcc eol' (items : prec) term :
+    match items with it :: _ => is_cc it = false | [] => True end ->
+    stopcc (print_body eol' items ++ "/" :: "/" :: term).
+  Proof.
+    destruct items as [|it items]; intros H; [reflexivity|].
+    unfold print_body. cbn [flat_map]. rewrite <- app_assoc. apply item_stopcc. exact H.
   Qed.
 
   Lemma body_stop2 eol' (items : prec) term : stop2 (print_body eol' items ++ "/" :: "/" :: term).
@@ -704,11 +858,12 @@ Section RT2.
 
   (* one line (or matrix block) of the record *)
   Lemma loop_item it F h X r :
-    item_ok al it = true -> is_digit h = false -> stop2 (h :: X) -> length (print_item eol it ++ h :: X) < F ->
+    item_ok al it = true -> is_digit h = false -> stop2 (h :: X) -> (is_cc it = true -> stopcc (h :: X)) ->
+    length (print_item eol it ++ h :: X) < F ->
     exists F', length (h :: X) < F' /\ loop F (print_item eol it ++ h :: X) r = loop F' (h :: X) (apply_item al r it).
   Proof.
-    intros Hok Hh Hst L. pose proof eol_length as E.
-    destruct it as [num xref lines|k v|k v| |po sep syms rows]; cbn [apply_item] in *.
+    intros Hok Hh Hst Hcc L. pose proof eol_length as E.
+    destruct it as [num xref lines|k v|k v| |t ts|d m y c au|po sep syms rows]; cbn [apply_item] in *.
     - cbn [item_ok] in Hok. apply andb_true_iff in Hok. destruct Hok as [Hok Hl].
       apply andb_true_iff in Hok. destruct Hok as [Hn Hx].
       destruct F as [|F]; [lia|]. exists F. split.
@@ -724,6 +879,16 @@ Section RT2.
     - cbn [print_item] in *. unfold xx_line in *. cbn [app] in *. cbn [length] in L. rewrite !app_length in L.
       destruct F as [|F]; [lia|]. exists F. split; [cbn [length] in *; lia|].
       unfold eol. apply loop_xx.
+    - destruct F as [|F]; [lia|]. exists F. split.
+      + cbn [print_item flat_map] in L. cbn [app length] in L. rewrite !app_length in L. cbn [length] in *. lia.
+      + apply loop_cc; [exact Hok|apply Hcc; reflexivity].
+    - cbn [item_ok] in Hok.
+      apply andb_true_iff in Hok. destruct Hok as [Hok Hdot]. apply andb_true_iff in Hok. destruct Hok as [Hok Hu].
+      apply andb_true_iff in Hok. destruct Hok as [Hok Hn]. apply andb_true_iff in Hok. destruct Hok as [Hok Hy].
+      apply andb_true_iff in Hok. destruct Hok as [Hd Hm].
+      destruct F as [|F]; [lia|]. exists F. split.
+      + cbn [print_item] in L. cbn [app length] in L. rewrite !app_length in L. cbn [length] in *. lia.
+      + apply loop_dt; assumption.
     - cbn [print_item] in *.
       destruct (item_ok_matrix po sep syms rows Hok) as (c & cs & idx & r0 & rows' & -> & Ei & -> & Hsep & _ & Hrows).
       rewrite Ei. fold (sym_text sep (c :: cs)) in *. fold (row_text crlf sep) in *.
@@ -734,19 +899,23 @@ Section RT2.
   Qed.
 
   Lemma loop_items : forall (items : prec) F term r,
-    prec_ok al items = true -> term = eol \/ term = [] ->
+    forallb (item_ok al) items = true -> cc_ok items = true -> term = eol \/ term = [] ->
     length (print_body eol items ++ "/" :: "/" :: term) < F ->
     loop F (print_body eol items ++ "/" :: "/" :: term) r = POk (fold_left (apply_item al) items r) [].
   Proof.
-    induction items as [|it items IH]; intros F term r Hok Ht L.
+    induction items as [|it items IH]; intros F term r Hok Hcc Ht L.
     - cbn [print_body flat_map app fold_left] in *. destruct F as [|F]; [lia|].
       unfold eol in Ht. apply (loop_end al crlf F term r Ht).
-    - cbn [prec_ok forallb] in Hok. apply andb_true_iff in Hok. destruct Hok as [Hit Hok].
+    - cbn [forallb] in Hok. apply andb_true_iff in Hok. destruct Hok as [Hit Hok].
+      cbn [cc_ok] in Hcc. apply andb_true_iff in Hcc. destruct Hcc as [Hadj Hcc].
       unfold print_body in *. cbn [flat_map fold_left] in *. rewrite <- app_assoc in *.
       fold (print_body eol items) in *.
+      assert (Hst3 : is_cc it = true -> stopcc (print_body eol items ++ "/" :: "/" :: term)).
+      { intros Hc. apply body_stopcc. rewrite Hc in Hadj. destruct items as [|it' items']; [exact I|].
+        cbn [andb] in Hadj. apply negb_true_iff in Hadj. exact Hadj. }
       destruct (body_head eol items term) as (h & X & EB & Hh).
       pose proof (body_stop2 eol items term) as Hst. rewrite EB in *.
-      destruct (loop_item it F h X r Hit Hh Hst L) as (F' & L' & E'). rewrite E'. rewrite <- EB in *.
+      destruct (loop_item it F h X r Hit Hh Hst Hst3 L) as (F' & L' & E'). rewrite E'. rewrite <- EB in *.
       apply IH; assumption.
   Qed.
 
@@ -755,7 +924,8 @@ Section RT2.
   Proof.
     intros Hp Ht. unfold parse_record, print_record, expected_record.
     change (["/"; "/"] ++ term) with ("/" :: "/" :: term).
-    apply loop_items; [exact Hp|exact Ht|apply Nat.lt_succ_diag_r].
+    unfold prec_ok in Hp. apply andb_true_iff in Hp. destruct Hp as [Hp1 Hp2].
+    apply loop_items; [exact Hp1|exact Hp2|exact Ht|apply Nat.lt_succ_diag_r].
   Qed.
 End RT2.
 
